@@ -90,6 +90,12 @@ TEXT = [
     "var r = 0; for (var i = 0; i < 3; ++i) { var &k = i; r = r + k }; r",
     "var s = 0; for (var i = 0; i < 4; ++i) { if (i == 1) { continue }; if (i == 3) { break }; s = s + i }; s",
     "def g() { for (var i = 0; i < 5; ++i) { if (i == 2) { return i * 7 } }; 0 }; g()",
+    # the counter of a compiled loop leaving the loop / the loop entered again while it runs: every entry has its own counter
+    "def g(n) { for (var i = 0; i < 10; ++i) { if (i == n) { return i } }; 99 }; g(3) + g(5)",
+    "def g(n) { for (var i = 0; i < 10; ++i) { if (i == n) { var &r = i; return r } }; 99 }; g(3) * 100 + g(5)",
+    "def mk(n) { for (var i = 0; i < 9; ++i) { if (i == n) { return fun[i]() { i } } }; fun() { -1 } }; var a = mk(2); var b = mk(7); [a(), b()]",
+    "def t(n) { var r = 0; for (var i = 0; i < 2; ++i) { if (n > 0) { r += t(n - 1) }; r += i + 1 }; r }; [t(1), t(2)]",
+    "def w(n) { var s = 0; for (var i = 0; i < 3; ++i) { if (n > 0) { w(n - 1) }; s = s * 10 + i }; s }; w(2)",
     "var s = 0; for (var i = 0; i < 2; ++i) { for (var j = 0; j < 2; ++j) { s = s + i * 2 + j } }; s",
     "var i = 50; for (var i = 0; i < 2; ++i) { out(i) }; i",
     "var s = 0; for (var i = 0; i < 6; ++i) { i = i + 1; s = s + i }; s",
